@@ -6,6 +6,54 @@ import os
 import re
 
 
+PATH_ARG = re.compile(r'^\d+\s+(\w+)\((?:AT_FDCWD, )?"((?:[^"\\\\]|\\\\.)*)"')
+
+
+def ambient_probe(pid, ck, viol):
+    """run the public entry points that use the DEFAULT settings under strace: every path handed to a file-system
+    system call while the library works must be absolute (a relative one reads the process' current directory)"""
+    import shutil
+    import subprocess
+    import tempfile
+    if not shutil.which("strace"):
+        return {"ran": False, "why": "strace not found"}
+    ok, out, hbin = ck.build_harness("release")
+    if not ok:
+        return {"ran": False, "why": "harness does not build"}
+    d = tempfile.mkdtemp(prefix="c15probe")
+    trace = os.path.join(d, "trace.txt")
+    try:
+        p = subprocess.run(["strace", "-f", "-qq", "-e", "trace=%file", "-o", trace, hbin, "ambient", "quick", "0"], cwd=d,
+                           stdout=subprocess.PIPE, stderr=subprocess.PIPE, timeout=120)
+        if p.returncode != 0 or not os.path.exists(trace):
+            return {"ran": False, "why": "strace failed: " + p.stderr.decode("utf-8", "replace")[-300:]}
+        cur = None
+        calls = 0
+        paths = 0
+        relative = []
+        for line in open(trace, errors="replace"):
+            m = PATH_ARG.match(line)
+            if not m:
+                continue
+            path = m.group(2)
+            if path.startswith("/VERIF-MARK/"):
+                cur = path[len("/VERIF-MARK/"):]
+                calls += 1
+                continue
+            if cur is None or cur == "end":
+                continue
+            paths += 1
+            if not path.startswith("/"):
+                relative.append({"call": cur, "syscall": m.group(1), "path": path})
+        for r in relative[:5]:
+            rp = ck.write_replay(pid, "ambient-path", dict(r, note="a path relative to the process' current directory was opened by the library: "
+                                                                   "the answer depends on process-global mutable state; re-run `harness ambient` under strace"))
+            viol.append(("ambient-path", rp, False))
+        return {"ran": True, "entry_points_traced": calls, "paths_seen": paths, "relative_paths": len(relative)}
+    finally:
+        shutil.rmtree(d, ignore_errors=True)
+
+
 def run(pid, cfg, tier, seed, tally, ck):
     viol = []
     rep = {}
@@ -18,7 +66,17 @@ def run(pid, cfg, tier, seed, tally, ck):
         viol.append(("inventory", rp, False))
         if len(viol) >= 5:
             break
-    cov = {"inventory": {k: (v if not isinstance(v, list) else len(v)) for k, v in rep.items()},
+    # the thread runner's own verdict: a thread's answers differ from the same calls made alone (this is an
+    # observation about the implementation, not only a disagreement with the model)
+    for tag, text in tally.disagree:
+        line, model, zone = ck.split_ctx(text)
+        if ck.family_of(line) == "threads" and len(viol) < 5:
+            rp = ck.write_replay(pid, "threads-differ", {"line": line, "seed": seed, "tier": tier,
+                                                       "note": "`harness threads <tier> <seed>`: the first differing protocol line of the named thread is given in the answer"})
+            viol.append(("threads-differ", rp, False))
+    probe = ambient_probe(pid, ck, viol)
+    cov_probe = probe
+    cov = {"ambient_probe": cov_probe, "inventory": {k: (v if not isinstance(v, list) else len(v)) for k, v in rep.items()},
            "explanation": "whole-source scan (items, field types, ambient calls) decided in Lean by `decide`; rustc decides Send+Sync "
                           "for every public type through the harness' assert_send_sync; 16-thread runner compared with the sequential run"}
     return viol, cov
